@@ -267,6 +267,152 @@ def exact_events(ctx, ty, dtype, nprog, maxd):
     return ev
 
 
+# ------------------------------------------------------------------ Mode R: Exp / Log nodes at generic points
+def rand_dir(rng, n):
+    v = [rng.gauss(0, 1) for _ in range(n)]
+    s = math.sqrt(sum(x * x for x in v)) or 1.0
+    return [x / s for x in v]
+
+
+def num_events(ctx, ty, dtype):
+    """Autograd Jacobians of  Act(Exp(x), p),  Log(X)  and  Log(Exp(x) @ Y)  at evaluation points of every
+    magnitude class (identity / zero, tiny, inside the small-angle window, generic, large rotation away from pi)
+    against central finite differences of the defining matrix exponential / logarithm in 60-digit arithmetic."""
+    import torch
+    import mpmath as mp
+    from vlib import refsem as R
+    pp = pypose()
+    rng = ctx.rng
+    q = ctx.quick
+    eps = mp.mpf(float(torch.finfo(dtype).eps))
+    dt = "f64" if dtype == torch.float64 else "f32"
+    unit = eps
+    n = L.ADIM[ty]
+    rots = [0.0, 1e-6, 2e-3, 0.1, 2.5] if q else [0.0, 1e-12, 1e-6, 1e-3, 2e-3, 3e-3, 0.1, 1.0, 2.5]
+    if ty == "Sim3":      # keep |ad xi| moderate so that the documented truncation allowance stays meaningful
+        tras, sigs = ([0.0, 0.3] if q else [0.0, 1e-3, 0.3]), [0.0, 0.3]
+        rots = [r for r in rots if r <= 1.0]
+    else:
+        tras = ([0.0, 5.0] if q else [0.0, 1e-3, 1.0, 30.0]) if ty == "SE3" else [0.0]
+        sigs = [0.0, 0.5] if ty == "RxSO3" else [0.0]
+    cells = [(r, t, s) for r in rots for t in tras for s in sigs]
+    if dt == "f32":
+        cells = cells[::2]
+    h = mp.mpf(10) ** -20
+    ev = []
+
+    def alg(cell):
+        r, t, s = cell
+        phi = [r * d for d in rand_dir(rng, 3)]
+        tau = [t * d for d in rand_dir(rng, 3)]
+        return {"SO3": phi, "SE3": tau + phi, "RxSO3": phi + [s], "Sim3": tau + phi + [s]}[ty]
+
+    def rows_of(y, leaf):
+        out = []
+        yf = y.reshape(-1)
+        for r in range(yf.numel()):
+            g, = torch.autograd.grad(yf[r], leaf, retain_graph=True)
+            out.append(g.reshape(-1).tolist())
+        return out
+
+    def allow_for(xi_alg, denom, scale):
+        if ty != "Sim3":
+            return 0
+        return int(min(mp.ceil(4 * R.ad_norm6(ty, xi_alg) / denom / scale / unit), R.CAP))
+
+    def emit(chk, got, ref, cell, allow, zero_ok=True, x=None):
+        # got / ref: lists of rows; relative to the largest reference entry
+        flat_r = [v for row in ref for v in row]
+        flat_g = [v for row in got for v in row]
+        fin = all(math.isfinite(v) for v in flat_g)
+        scale = max(max(abs(v) for v in flat_r), mp.mpf(10) ** -290)
+        err = R.CAP if not fin else int(min(mp.ceil(max(abs(mp.mpf(a) - b) for a, b in zip(flat_g, flat_r)) / scale / unit), R.CAP))
+        ev.append({"chk": chk, "ty": ty, "dt": dt, "err": err, "finite": fin, "allow": allow,
+                   "cell": {"rot": cell[0], "trans": cell[1], "sigma": cell[2]}, "x": x, "a": []})
+        if not zero_ok:
+            ev.append({"chk": "grad_zero_slot", "ty": ty, "dt": dt, "err": 1, "finite": fin, "allow": 0,
+                       "cell": {"rot": cell[0], "trans": cell[1], "sigma": cell[2]}, "x": x, "a": []})
+
+    for cell in cells:
+        xv = alg(cell)
+        # ---- P1: Act(Exp(x), p) w.r.t. the algebra input x (ordinary Jacobian)
+        x = L.mkalg(ty, xv, dtype).requires_grad_(True)
+        pv = [float(rng.randint(-2, 2)) or 1.0 for _ in range(3)]
+        p = torch.tensor(pv, dtype=dtype)
+        got = rows_of(x.Exp().Act(p), x)                       # 3 x n
+        xf = x.tensor().detach().tolist()
+        ph = mp.matrix(pv + [1.0])
+        ref_cols = []
+        for i in range(n):
+            xp, xm = [mp.mpf(v) for v in xf], [mp.mpf(v) for v in xf]
+            xp[i] += h
+            xm[i] -= h
+            d = (R.exp_ref(ty, xp) * ph - R.exp_ref(ty, xm) * ph) / (2 * h)
+            ref_cols.append([d[0], d[1], d[2]])
+        ref = [[ref_cols[i][r] for i in range(n)] for r in range(3)]
+        scale1 = max(max(abs(v) for row in ref for v in row), mp.mpf(10) ** -290)
+        emit("grad_exp_act", got, ref, cell, allow_for(xf, 5040, scale1) , x=xf)
+        # ---- P2: Log(X) w.r.t. a left perturbation of the group input X
+        Xv = L.mkalg(ty, xv, dtype).Exp().tensor().detach()
+        X = pp.LieTensor(Xv.clone(), ltype=getattr(pp, ty + "_type")).requires_grad_(True)
+        rows = rows_of(X.Log().tensor(), X)                   # n x (n + 1)
+        got = [row[:n] for row in rows]
+        zero_ok = all(row[n] == 0 for row in rows) and all(len(row) == n + 1 for row in rows)
+        Xl = Xv.tolist()
+        cols = []
+        for i in range(n):
+            e = [0.0] * n
+            e[i] = 1.0
+            cols.append(R.jlinv_fd(ty, Xl, e))
+        ref = [[cols[i][r] for i in range(n)] for r in range(n)]
+        scale2 = max(max(abs(v) for row in ref for v in row), mp.mpf(10) ** -290)
+        xi_log = R.log_ref(ty, R.mat_of(ty, Xl)) if ty == "Sim3" else None
+        emit("grad_log", got, ref, cell, allow_for(xi_log, 30240, scale2), zero_ok=zero_ok, x=Xl)
+        # ---- P3: Log(Exp(x) @ Y) w.r.t. x
+        if not q or cell[0] in (0.0, 2e-3, 2.5):
+            # Y: rotation by 2 pi / 3 (|w| = 1/2) so that Exp(x) @ Y stays away from the cut of Log at pi
+            off_q = {"SO3": 0, "SE3": 3, "RxSO3": 0, "Sim3": 3}[ty]
+            while True:
+                yv = L.rand_elem(rng, ty, tbox=1, sbox=0)
+                if abs(yv[off_q + 3]) == 0.5:
+                    break
+            Y = L.mk(ty, yv, dtype)
+            x = L.mkalg(ty, xv, dtype).requires_grad_(True)
+            zq = (x.Exp() @ Y).tensor().detach()[off_q:off_q + 4]
+            ang = 2 * math.atan2(float(zq[:3].norm()), abs(float(zq[3])))
+            if ang > math.pi - 0.2:
+                continue
+            got = rows_of((x.Exp() @ Y).Log().tensor(), x)       # n x n
+            My = R.mat_of(ty, Y.tensor().tolist())
+            cols = []
+            for i in range(n):
+                xp, xm = [mp.mpf(v) for v in xf], [mp.mpf(v) for v in xf]
+                xp[i] += h
+                xm[i] -= h
+                lp = R.log_ref(ty, R.exp_ref(ty, xp) * My)
+                lm = R.log_ref(ty, R.exp_ref(ty, xm) * My)
+                cols.append([(a - b) / (2 * h) for a, b in zip(lp, lm)])
+            ref = [[cols[i][r] for i in range(n)] for r in range(n)]
+            scale3 = max(max(abs(v) for row in ref for v in row), mp.mpf(10) ** -290)
+            zl = R.log_ref(ty, R.exp_ref(ty, xf) * My) if ty == "Sim3" else None
+            a3 = 0 if ty != "Sim3" else min(R.CAP, allow_for(xf, 5040, scale3) + allow_for(zl, 30240, scale3))
+            emit("grad_logexp", got, ref, cell, a3, x=xf)
+    return ev
+
+
+class _MiniCtx:
+    def __init__(self, seed, quick):
+        import random
+        self.rng, self.quick, self.seed = random.Random(seed), quick, seed
+
+
+def _num_worker(args):
+    import torch
+    ty, dts, seed, quick = args
+    pypose()
+    return num_events(_MiniCtx(seed, quick), ty, torch.float64 if dts == "f64" else torch.float32)
+
+
 def judge(ctx, traces, verdicts, spec):
     for tr, v in zip(traces, verdicts):
         if v != "ok":
@@ -297,7 +443,11 @@ def run(ctx):
                 "Exp/Log first order) equal the dual-number derivation, for every lattice element",
                 "Mode E: random well-typed programs (depth <= 4 quick / 6 thorough) over mul, inv, act3, act4, adj, adjT, retr, "
                 "exp, log, matrix on lattice inputs; Jacobians from six autograd entry points validated exactly by TLC "
-                "(LieJacTrace) incl. the zero slot; distinct = distinct program shape x type"]
+                "(LieJacTrace) incl. the zero slot; distinct = distinct program shape x type",
+                "Mode R: autograd Jacobians of Act(Exp(x), p), Log(X) (left perturbation) and Log(Exp(x) @ Y) at evaluation points "
+                "of every magnitude class (zero/identity, tiny, inside the small-angle window, generic, large rotation away from pi; "
+                "translations to 30) vs central finite differences of expm/logm in 60-digit arithmetic; judged by LieNumTrace "
+                "(4 sqrt(eps); Sim3 with the documented truncation allowances |ad xi|^6/5040 and /30240)"]
     ctx.assumptions = ["exact fragment: Exp/Log/Retr nodes are evaluated where their series are finite (zero rotation and "
                        "log-scale part); generic Exp/Log/Jinvp nodes are covered by the Mode-R part",
                        "group-valued program outputs have no property-defined raw-coordinate Jacobian and are not generated"]
@@ -306,6 +456,11 @@ def run(ctx):
         tr = case["trace"]
         judge(ctx, [tr], ctx.validate(case["spec"], case["spec"] + ".cfg", [tr], "replay"), case["spec"])
         return
+    # the Mode-R measurements (pure-Python 60-digit arithmetic) run in worker processes while TLC works
+    import multiprocessing as mpc
+    jobs = [(ty, dts, ctx.seed * 100 + 7 * i + j, q) for i, ty in enumerate(L.TYPES) for j, dts in enumerate(("f64", "f32"))]
+    pool = mpc.get_context("fork").Pool(8)
+    pending = pool.map_async(_num_worker, jobs)
     ctx.tlc_many([dict(module="LieJacMC", cfg="LieJacMC_%s%s.cfg" % (ty, "" if q else "_t"), workers=2, timeout=7200)
                   for ty in L.TYPES], parallel=4)
     for r in ctx.tlc_runs:
@@ -322,7 +477,25 @@ def run(ctx):
     ctx.sample({"program": shape_of(traces[0]["ev"][0]["prog"]), "event": traces[0]["ev"][0]})
     ctx.extra["programs"] = sum(len(t["ev"]) for t in traces)
     ctx.extra["max_depth"] = max(e["depth"] for t in traces for e in t["ev"])
-    judge(ctx, traces, ctx.validate("LieJacTrace", "LieJacTrace.cfg", traces, "jac", chunk=2000, workers=16), "LieJacTrace")
+    judge(ctx, traces, ctx.validate("LieJacTrace", "LieJacTrace.cfg", traces, "jac", chunk=12, parallel=8), "LieJacTrace")
+    # Mode R: generic evaluation points of Exp / Log nodes
+    ntr = []
+    worst = {}
+    results = pending.get(timeout=7200)
+    pool.close()
+    for (ty, dts, _, _), nev in zip(jobs, results):
+        dtype = torch.float64 if dts == "f64" else torch.float32
+        if True:
+            for e in nev:
+                ctx.cover("R:%s:%s:%s:%s" % (e["chk"], ty, e["dt"], e["cell"]))
+                k = "%s/%s/%s" % (e["chk"], ty, e["dt"])
+                worst[k] = max(worst.get(k, 0), e["err"] - e["allow"])
+            for i in range(0, len(nev), 20):
+                ntr.append({"cfg": {"ty": ty, "dtype": str(dtype), "kind": "num"}, "ev": nev[i:i + 20]})
+    ctx.extra["numeric_events"] = sum(len(t["ev"]) for t in ntr)
+    ctx.extra["worst_err_minus_allowance_eps_units"] = worst
+    ctx.sample(ntr[0]["ev"][0])
+    judge(ctx, ntr, ctx.validate("LieNumTrace", "LieNumTrace.cfg", ntr, "gradnum", chunk=4000), "LieNumTrace")
 
 
 def selftest(ctx):
